@@ -251,6 +251,59 @@ func TestC20Syscalls(t *testing.T) {
 	}
 	sort.Strings(info)
 	hC20.Extra("info_syscall_differences_from_kernel_headers", strings.Join(info, "; "))
+	// the tables as the library's own consumers use them: the parser shows (arch code, number) by the table's names,
+	// and the rule encoder resolves that name under that architecture to that number
+	codeOf := map[string]auparse.AuditArch{}
+	for code, name := range auparse.AuditArchNames {
+		codeOf[name] = code
+	}
+	for arch, tab := range auparse.AuditSyscalls {
+		code, ok := codeOf[arch]
+		if !ok {
+			continue
+		}
+		for num, name := range tab {
+			key := fmt.Sprintf("%s/%d", arch, num)
+			m, err := auparse.Parse(auparse.AUDIT_SYSCALL, fmt.Sprintf("audit(1.000:9): arch=%x syscall=%d success=yes exit=0 a0=0 a1=0 a2=0 a3=0 items=0 ppid=1 pid=2 auid=0 uid=0 gid=0 euid=0 suid=0 fsuid=0 egid=0 sgid=0 fsgid=0 tty=(none) ses=1 comm=\"c\" exe=\"/c\" key=(null)", uint32(code), num))
+			if err != nil {
+				t.Fatalf("parse: %v", err)
+			}
+			d, err := m.Data()
+			c.entry("syscall-displayed", key)
+			if err != nil || d["arch"] != arch || d["syscall"] != name {
+				c.fail("syscall-displayed", key, "the parser shows arch=%x syscall=%d as arch=%q syscall=%q (%v); the tables say %q and %q", uint32(code), num, d["arch"], d["syscall"], err, arch, name)
+			}
+			if num < 0 || num >= 2048 {
+				continue
+			}
+			r, err := flags.Parse("-a always,exit -F arch=" + arch + " -S " + name)
+			if err != nil {
+				c.fail("syscall-resolved", key, "rule with -F arch=%s -S %s does not parse: %v", arch, name, err)
+				continue
+			}
+			wf, err := rule.Build(r)
+			if err != nil {
+				c.fail("syscall-resolved", key, "the rule encoder does not resolve %q under %s: %v", name, arch, err)
+				continue
+			}
+			c.entry("syscall-resolved", key)
+			w, err := rulegen.Decode(wf)
+			if err != nil {
+				c.fail("syscall-resolved", key, "undecodable rule: %v", err)
+				continue
+			}
+			for i, word := range w.Mask {
+				want := uint32(0)
+				if i == num/32 {
+					want = 1 << (num % 32)
+				}
+				if word != want {
+					c.fail("syscall-resolved", key, "the rule encoder resolves %q under %s to mask word %d = %#x, the table says number %d", name, arch, i, word, num)
+					break
+				}
+			}
+		}
+	}
 }
 
 func TestC20RuleTables(t *testing.T) {
